@@ -61,10 +61,16 @@ def generate(chk, rnd, n, pool):
     def like(a):
         """an operand with the dimensions of a: a fact of equal dimensions, or a literal in a respelling of a's unit"""
         d = a["dims"]
-        if d in by_dims and rnd.random() < 0.4:
-            return rnd.choice(by_dims[d])
-        if "terms" in a:
+        plain = not a.get("terms") and not a.get("u")
+        # a plain number added to a quantity *adopts* its unit (C02): such a sum is not the addition of the two SI values, so
+        # the addition laws are only instantiated with operands that both carry units or are both plain numbers
+        cands = [f for f in by_dims.get(d, []) if (not f["u"]) == plain]
+        if cands and rnd.random() < 0.4:
+            return rnd.choice(cands)
+        if a.get("terms"):
             return literal(ug.respell(a["terms"]))
+        if "terms" in a:
+            return {"text": ugen.magnitude(rnd), "terms": [], "dims": ugen.ZERO, "u": []}
         # a fact: spell its displayed unit with unambiguous words
         terms = []
         for k, pw, px in a["u"]:
@@ -73,7 +79,7 @@ def generate(chk, rnd, n, pool):
                 return None
             terms.append(t)
         if not terms:
-            return {"text": ugen.magnitude(rnd), "terms": [], "dims": ugen.ZERO}
+            return {"text": ugen.magnitude(rnd), "terms": [], "dims": ugen.ZERO, "u": []}
         return literal(ug.respell(terms) if rnd.random() < 0.5 else terms)
 
     def any_operand():
